@@ -1,6 +1,6 @@
 (* C03 -- the restraint object: re-executing the step at which the state was written. *)
 From Coq Require Import ZArith List Bool Lia.
-From CV Require Import Base.Num C03.ResumeModel C03.ResumeProofs C06.RestraintModel C06.RestraintSched C03.ObjectsModel
+From CV Require Import Base.Num C03.ResumeModel C03.ResumeProofs C06.RestraintModel C06.RestraintSched C03.ObjectsModel C03.UsesC06
   C03.RestraintResume.
 Import ListNotations.
 Local Open Scope Z_scope.
